@@ -640,7 +640,7 @@ MUTANTS = [
     Mutant('pianoroll pads one frame short', PR, "      self._events += [()] * (steps - self.num_steps)", "      self._events += [()] * (steps - self.num_steps - 1)", rule='STEPS/pianoroll'),
     # equivalent
     Mutant('append recomputes end_step', EL, "    self._events.append(event)\n    self._end_step += 1", "    self._events.append(event)\n    self._end_step = self._start_step + len(self._events)", expect='silent'),
-    Mutant('lead sheet delegate calls reordered', LS, "    self._melody.append(melody_event)\n    self._chords.append(chord_event)", "    self._chords.append(chord_event)\n    self._melody.append(melody_event)", expect='silent'),
+    Mutant('lead sheet delegate calls reordered', LS, "    self._melody.append(melody_event)\n    self._chords.append(chord_event)", "    self._chords.append(chord_event)\n    self._melody.append(melody_event)", rule='PAIRED/append-validates-first'),   # was listed as equivalent until the round-4 change C17_i showed by execution that it is not
     Mutant('from_event_list computes the end from the argument', EL, "    self._end_step = start_step + len(self)\n", "    self._end_step = start_step + len(self._events)\n", expect='silent'),
 ]
 
